@@ -674,6 +674,30 @@ func init() {
 		}
 		return out
 	})
+	reg(vrtPkg+"RunAs", func(fr *frame, a []value) value {
+		px := fr.i.px
+		prev := px.curThread
+		px.curThread = int(asInt64(a[0]))
+		defer func() { px.curThread = prev }()
+		call(fr.i, fr, 0, a[1], nil)
+		return nil
+	})
+	reg(vrtPkg+"Watch", func(fr *frame, a []value) value {
+		px := fr.i.px
+		if px.watch == nil {
+			px.watch = &watchState{names: map[*value]string{}, acc: map[string][]watchAccess{}}
+		}
+		p := a[0].(iface).v.(*value)
+		px.watch.names[p] = mustGoString(fr, a[1], "watch name")
+		return nil
+	})
+	reg(vrtPkg+"WatchOn", func(fr *frame, a []value) value {
+		if fr.i.px.watch != nil {
+			fr.i.px.watch.on = a[0].(bool)
+		}
+		return nil
+	})
+	reg(vrtPkg+"WatchReport", func(fr *frame, a []value) value { return fromStrSlice(fr.i.px.watchReport()) })
 	reg(vrtPkg+"Freeze", func(fr *frame, a []value) value {
 		fr.i.px.freeze(a[0].([]value))
 		return nil
